@@ -16,6 +16,17 @@ fn body_for(seq: usize, len: usize, last: bool) -> Vec<u8> {
     b
 }
 
+/// fingerprint of a message as a subscriber must see it: headers (sorted) and body
+fn msg_sig(headers: Option<&[(String, String)]>, body: &[u8]) -> u64 {
+    let mut h: Option<Vec<(String, String)>> = headers.map(|x| x.to_vec());
+    if let Some(v) = h.as_mut() {
+        v.sort();
+    }
+    let mut bytes = format!("{:?}|", h).into_bytes();
+    bytes.extend_from_slice(body);
+    fnv(&bytes)
+}
+
 fn seq_of(body: &[u8]) -> Option<(usize, bool)> {
     let head = String::from_utf8_lossy(&body[..body.len().min(40)]).to_string();
     let mut it = head.split('|');
@@ -29,13 +40,13 @@ async fn drain_sub(mut s: WireStream, wait: Duration) -> (Vec<(usize, usize, u64
     let mut got = vec![];
     loop {
         match s.next(wait).await {
-            Next::Frame(WFrame::Message { body, .. }) => {
+            Next::Frame(WFrame::Message { headers, body }) => {
                 if body.starts_with(b"sentinel") {
                     continue;
                 }
                 match seq_of(&body) {
                     Some((q, last)) => {
-                        got.push((q, body.len(), fnv(&body)));
+                        got.push((q, body.len(), msg_sig(headers.as_deref(), &body)));
                         if last {
                             return (got, "complete".into());
                         }
@@ -90,18 +101,18 @@ pub async fn c01_boundary(addr: SocketAddr, certs: &Certs, id: u64) -> std::resu
     let readers: Vec<_> = subs.into_iter().map(|s| tokio::spawn(drain_sub(s, Duration::from_secs(25)))).collect();
     for (i, len) in sizes.iter().enumerate() {
         let b = body_for(i, *len, false);
-        sent.push((i, b.len(), fnv(&b)));
+        sent.push((i, b.len(), msg_sig(None, &b)));
         p.write(&enc_message(None, &b)).await.map_err(|e| format!("publisher write of a {}-byte message failed: {}", len, e))?;
     }
     // with headers: payload exactly at the limit and one below (1 + 8 + (8+1+8+1) + 8 + body)
     for (k, slack) in [(sizes.len(), 0usize), (sizes.len() + 1, 1)] {
         let hdr = vec![("k".to_string(), "v".to_string())];
         let b = body_for(k, LIMIT - (1 + 8 + 18 + 8) - slack, false);
-        sent.push((k, b.len(), fnv(&b)));
+        sent.push((k, b.len(), msg_sig(Some(&hdr), &b)));
         p.write(&enc_message(Some(&hdr), &b)).await?;
     }
     let lastb = body_for(sizes.len() + 2, 12, true);
-    sent.push((sizes.len() + 2, lastb.len(), fnv(&lastb)));
+    sent.push((sizes.len() + 2, lastb.len(), msg_sig(None, &lastb)));
     p.write(&enc_message(None, &lastb)).await?;
     let mut findings = vec![];
     let mut deliveries = 0u64;
@@ -182,7 +193,7 @@ pub async fn c11_pipelined(addr: SocketAddr, certs: &Certs, id: u64) -> std::res
         let mut sent = vec![];
         for i in 0..chunks {
             let b = body_for(i, first_len, false);
-            sent.push((i, b.len(), fnv(&b)));
+            sent.push((i, b.len(), msg_sig(None, &b)));
             bytes.extend_from_slice(&enc_message(None, &b));
         }
         p.write(&bytes).await?;
@@ -200,7 +211,7 @@ pub async fn c11_pipelined(addr: SocketAddr, certs: &Certs, id: u64) -> std::res
             }
         }
         let b = body_for(chunks, 16, true);
-        sent.push((chunks, b.len(), fnv(&b)));
+        sent.push((chunks, b.len(), msg_sig(None, &b)));
         let wr = p.write(&enc_message(None, &b)).await;
         let (got, how) = drain_sub(sub, Duration::from_secs(5)).await;
         if got != sent {
@@ -770,7 +781,7 @@ pub async fn concurrent_first_registrations(addr: SocketAddr, certs: &Certs, rou
             let mut sent = vec![];
             for i in 0..3 {
                 let b = body_for(i, 24, i == 2);
-                sent.push((i, b.len(), fnv(&b)));
+                sent.push((i, b.len(), msg_sig(None, &b)));
                 p.write(&enc_message(None, &b)).await?;
             }
             let total = subs.len();
@@ -830,7 +841,7 @@ pub async fn c01_pipelined_and_half_closed(addr: SocketAddr, certs: &Certs, id: 
     let mut sent = vec![];
     for i in 0..3 {
         let b = body_for(i, 40 + i * 1000, false);
-        sent.push((i, b.len(), fnv(&b)));
+        sent.push((i, b.len(), msg_sig(None, &b)));
         bytes.extend_from_slice(&enc_message(None, &b));
     }
     p.write(&bytes).await?;
@@ -839,10 +850,12 @@ pub async fn c01_pipelined_and_half_closed(addr: SocketAddr, certs: &Certs, id: 
         Next::Frame(WFrame::Error { .. }) => return Ok((0, vec![])), // refused outright: nothing was accepted
         other => return Ok((0, vec![("pipelined-publisher/no-verdict".into(), format!("{:?}", other))])),
     }
+    // … the later ones with application headers outside ASCII (multi-byte keys and values)
     for i in 3..6 {
         let b = body_for(i, 64, i == 5);
-        sent.push((i, b.len(), fnv(&b)));
-        p.write(&enc_message(None, &b)).await?;
+        let hdr = vec![("schlüssel".to_string(), "wért-中-💥".to_string()), ("k".to_string(), "é".repeat(i))];
+        sent.push((i, b.len(), msg_sig(Some(&hdr), &b)));
+        p.write(&enc_message(Some(&hdr), &b)).await?;
     }
     let mut findings = vec![];
     let mut deliveries = 0u64;
